@@ -42,7 +42,7 @@ def run(ctx):
             if kind == 'aa-file-at-2':
                 body = b'\xAA' * 8 + r.bytes(r.range(0, 600))
                 f = discs.AbsFile(0x24, b'AA', False, 0, 0, 2, body)
-                more = discs.layout_files(r, r.choice([0, 1, 2, 3, 29, 30, 30]), 2 + f.sectors(), 400, used)     # 30 more: the sector-2 file sits in the 31st (last) slot
+                more = discs.layout_files(r, [30, 0, 29, 1, 30, 2, 3][(k // len(kinds)) % 7], 2 + f.sectors(), 400, used)     # 30 more: the sector-2 file sits in the 31st (last) slot
                 files = [f] + more
                 files.reverse()
                 d = discs.AbsDisc('dfs', r.choice([40, 80]), 10)
@@ -110,6 +110,12 @@ def run(ctx):
                 d.cats = [discs.AbsCat(b'S2', 0, 0, r.choice([800, 402]), files)]
             elif kind == 'opus':
                 d = discs.gen_disc(r, variant='opus', max_files=3)
+                # start sectors are relative to the volume: files of a volume that begin at (relative) sectors 2 and 16 say nothing about the disc's
+                # sectors 2 and 16 - the disc is an Opus disc all the same
+                lowest = min(d.vols)
+                st_, cat_ = d.vols[lowest]
+                if cat_.total >= 40:
+                    cat_.files = [discs.AbsFile(0x24, b'AT16', False, 0, 0, 16, r.bytes(r.range(1, 600))), discs.AbsFile(0x24, b'AT2', False, 0, 0, 2, b'\xAA' * 8 + r.bytes(r.range(1, 3000)))]
             else:
                 d = discs.gen_disc(r, max_files=4)
             fill = discs.filler(r)
